@@ -47,9 +47,9 @@ def sh(cmd, cwd):
 
 def imp():
     # deliveries: round 1 /tmp/neutral/<Cxx>-out -> n1..n3; round 2 -out2 -> n4..n6; round 3 -out3 -> n7..n9;
-    # round 4 /tmp/neutral4/<Cxx>-out -> n10..n12; round 5 /tmp/neutral5/<Cxx>-out -> n13..n15; round 6 /tmp/neutral6 -> n16..n18; round 7 /tmp/neutral7 -> n19..n21
+    # round 4 /tmp/neutral4/<Cxx>-out -> n10..n12; round 5 /tmp/neutral5/<Cxx>-out -> n13..n15; round 6 /tmp/neutral6 -> n16..n18; round 7 /tmp/neutral7 -> n19..n21; round 8 -> n22..n24; round 9 (focused, 4 properties x 2) /tmp/neutral9 -> n25..n26
     for prop in ALL:
-        for base, off in ((f"/tmp/neutral/{prop}-out", 0), (f"/tmp/neutral/{prop}-out2", 3), (f"/tmp/neutral/{prop}-out3", 6), (f"/tmp/neutral4/{prop}-out", 9), (f"/tmp/neutral5/{prop}-out", 12), (f"/tmp/neutral6/{prop}-out", 15), (f"/tmp/neutral7/{prop}-out", 18), (f"/tmp/neutral8/{prop}-out", 21)):
+        for base, off in ((f"/tmp/neutral/{prop}-out", 0), (f"/tmp/neutral/{prop}-out2", 3), (f"/tmp/neutral/{prop}-out3", 6), (f"/tmp/neutral4/{prop}-out", 9), (f"/tmp/neutral5/{prop}-out", 12), (f"/tmp/neutral6/{prop}-out", 15), (f"/tmp/neutral7/{prop}-out", 18), (f"/tmp/neutral8/{prop}-out", 21), (f"/tmp/neutral9/{prop}-out", 24)):
             if not os.path.isdir(base):
                 continue
             for n in sorted(os.listdir(base)):
